@@ -21,6 +21,7 @@ def showOut : Out → Option String
   | .decoded _ how => some (if how = 1 then "same" else if how = 2 then "swap" else "new")
   | .submit id u p _ => some s!"sub{id}:{Bytes.toHex u}:{Bytes.toHex p}"
   | .queued _ => some "q"
+  | .tooLong _ => some "toolong,n407/-"
   | .forward _ u _ => some s!"f200/{Bytes.toHex u}"
   | .challenge _ lg => some s!"n407/{logName lg}"
   | .verdict .. => none
@@ -28,6 +29,7 @@ def showOut : Out → Option String
 def outTag : Out → Option Nat
   | .submit _ _ _ r => some r.tag
   | .queued r => some r.tag
+  | .tooLong r => some r.tag
   | .forward r _ _ => some r.tag
   | .challenge r _ => some r.tag
   | _ => none
